@@ -37,7 +37,7 @@ theorem exN_runs :
 theorem C01_groundFO_correct_wfm_exN (sched : Sched) (fuel : Nat) (calls : List Call) (rss : List Results) (st' : St)
     (h : groundAll exN sched fuel calls {} = .ok (rss, st')) (chosen : Array Bool) (i : Nat) (hc : i < calls.length)
     (hr : i < rss.length) (har : lookup exNAr calls[i].pred = some calls[i].args.length) :
-    (∀ r ∈ rss[i], inR 2 r.1 = true → ∀ ρ, Consistent st'.store ρ → Agree chosen st'.store ρ →
+    (∀ r ∈ rss[i], Fits calls[i].args r.1 ∧ ∀ ρ, Consistent st'.store ρ → Agree chosen st'.store ρ →
       keyVal ρ r.2 = truthFO exN 16 chosen (exN.atomName calls[i].pred r.1)) ∧
     (∀ a ∈ tuples 2 calls[i].args.length, Fits calls[i].args a → a ∉ rss[i].map (·.1) →
       truthFO exN 16 chosen (exN.atomName calls[i].pred a) = false) :=
